@@ -82,7 +82,7 @@ def vkey(v):
 
 
 def ekey(e):
-    return (vkey(e[0]), vkey(e[1]), str(e[2]))
+    return (vkey(e[0]), vkey(e[1]), (type(e[2]).__name__, str(e[2])))
 
 
 def tup(e):
@@ -181,6 +181,10 @@ class Engine:
             "fault_rate": rng.choice([0.2, 0.4, 0.7]),
             "builtin_rate": rng.choice([0.0, 0.1, 0.3]),
             "word_as": rng.choice(["str", "tuple"]),
+            # how the views are read after every step: through the accessor methods (edges_in(v),
+            # neighbors_in(v) for every vertex - which, on the current tree, lazily creates entries in the
+            # incoming view) or through the out_dict / in_dict properties (which changes nothing)
+            "i1_mode": rng.choice(["accessors", "properties"]),
         }
         if not c10 and not cfg["i3"] and rng.random() < 0.12:
             cfg["alpha"] = "int"        # the views do not care what a label is (C09 only: enumeration
@@ -1684,7 +1688,7 @@ class Engine:
         for h in world.live():
             if h.big and h.id not in touched and (world.steps_done % 4):
                 continue            # giant built-ins: re-check every 4th step unless touched
-            bad = self._i1(h)
+            bad = self._i1(h, cfg.get("i1_mode", "accessors"))
             if bad:
                 prop = "C09"
                 inv, detail = bad
@@ -1724,17 +1728,24 @@ class Engine:
                     vs.append(viol("C10", inv, "handle %s [%s]: %s" % (h.id, h.origin, detail)))
                     return
 
-    def _i1(self, h):
+    def _i1(self, h, mode="accessors"):
         a = h.real
         try:
             verts = list(a.vertices())
             gd = a.graph_dict
             label = [tup(e) for e in a.edges(with_labels=True)]
             label2 = [(v, w, l) for v, nb in gd.items() for l, w in nb.items()]
-            out = [tup(e) for v in verts for e in a.edges_out(v)]
-            inn = [tup(e) for v in verts for e in a.edges_in(v)]
-            nout = {(v, w) for v in verts for w in a.neighbors_out(v)}
-            nin = {(w, v) for v in verts for w in a.neighbors_in(v)}
+            if mode == "properties":
+                # read-only iteration over the public out_dict / in_dict properties
+                out = [(v, w, l) for v, nb in a.out_dict.items() for w, ls in nb.items() for l in ls]
+                inn = [(w, v, l) for v, nb in a.in_dict.items() for w, ls in nb.items() for l in ls]
+                nout = {(v, w) for v, nb in a.out_dict.items() for w in nb}
+                nin = {(w, v) for v, nb in a.in_dict.items() for w in nb}
+            else:
+                out = [tup(e) for v in verts for e in a.edges_out(v)]
+                inn = [tup(e) for v in verts for e in a.edges_in(v)]
+                nout = {(v, w) for v in verts for w in a.neighbors_out(v)}
+                nin = {(w, v) for v in verts for w in a.neighbors_in(v)}
             starts = list(a.start_vertices)
         except Exception as e:
             return ("I1.raised", "reading the views raised %r" % (e,))
